@@ -404,6 +404,23 @@ func (s *mgrSession) monitor(pre quic.VerifMgrState, o *mOp) {
 		}
 	}
 	s.prevHeld = held
+	// Retire Prior To honoured: after a frame that was taken (not answered with RETIRE for
+	// itself), nothing below its Retire Prior To is still held
+	if o.kind == "add" && (o.cls == quic.VerifOK || o.cls == quic.VerifLimitErr) && (held[o.seq] || retNow[o.seq] == 0) {
+		for q := range held {
+			if q < o.rpt {
+				s.fail("rpt-not-honoured", fmt.Sprintf("sequence number %d still held after Retire Prior To %d", q, o.rpt))
+			}
+		}
+	}
+	// conflicting contents for a queued sequence number must be refused
+	if o.kind == "add" {
+		for _, e := range pre.Queue {
+			if e.Seq == o.seq && (!bytes.Equal(e.CID, o.cid) || e.Tok != o.tok) && o.cls != quic.VerifOtherErr {
+				s.fail("conflict-accepted", fmt.Sprintf("conflicting contents for queued sequence number %d gave class %d", o.seq, o.cls))
+			}
+		}
+	}
 	// (b) limit honoured as advertised: refuse only if the peer really exceeded, accept only within
 	if o.kind == "add" {
 		peerActive := 0
@@ -561,6 +578,16 @@ func (c *cidRun) mgrWitnesses() {
 	s.do(&mOp{kind: "pget", pid: 1})
 	s.do(add(1, 0))
 	s.emit()
+	// W7: Retire Prior To not above highestRetired still retires an older probing ID
+	s = c.newMgrSession(init, "W7")
+	s.do(add(1, 0)); s.do(add(2, 0)); s.do(add(3, 0))
+	s.do(&mOp{kind: "pget", pid: 1})
+	s.do(&mOp{kind: "hs"}); s.do(&mOp{kind: "get"})
+	s.do(add(4, 0)); s.do(add(5, 0))
+	s.do(&mOp{kind: "sent", k: 16000}); s.do(&mOp{kind: "get"})
+	s.do(add(6, 2))
+	s.do(&mOp{kind: "close"})
+	s.emit()
 	// W4: exactly the limit is accepted, one more is refused
 	s = c.newMgrSession(init, "W4")
 	for q := uint64(1); q <= maxActive; q++ {
@@ -660,6 +687,9 @@ func (c *cidRun) mgrCase(r *u.Rng, idx int) {
 			continue
 		}
 		x := r.Intn(100)
+		if probing && r.Chance(1, 6) {
+			x = 86 + r.Intn(9) // more path probing in the cases that use it
+		}
 		switch {
 		case x < 30: // fresh, in order
 			if !aggressive && peerActive() >= maxActive && r.Chance(9, 10) {
